@@ -3,6 +3,7 @@
 
 mod families;
 mod framework;
+mod lin;
 mod minimise;
 mod props;
 mod util;
